@@ -291,7 +291,7 @@ Section CI.
   (* ---- apply ------------------------------------------------------------------------------------- *)
   Lemma c_apply_one g td' s p : local_ok' pl p -> CInv (p_id p :: td') s -> CInv td' (apply_one sc pl g s p).
   Proof.
-    intros [l [EL [EI Hin]]] H. pose proof H as [].
+    intros [l [EL [EI [Hin _]]]] H. pose proof H as [].
     destruct (apply_one_spec sc pl g s p l EL EI) as [SA [a [u [gen [lt [ST [STR [SF SO]]]]]]]]. cbv zeta in *.
     rewrite ND in SO.
     assert (FRM : frame (r_cl s) (r_cl (apply_one sc pl g s p)) (p_id p)).
